@@ -66,7 +66,8 @@ class ScriptedPlayer:
     """One connection request + (if seated) a full conforming session."""
 
     def __init__(self, seat, team, script, style, seed, addr, version=18, overrides=None,
-                 name=None, on_verdict=None, vanish=None, pre_connect=None, post_connect=None):
+                 name=None, on_verdict=None, vanish=None, pre_connect=None, post_connect=None,
+                 linger_gate=None):
         self.seat = seat
         self.team = team
         self.script = script            # list of {'calls': [...], 'cards': [...]} per board
@@ -87,6 +88,10 @@ class ScriptedPlayer:
         self.vanish = vanish
         self.pre_connect = pre_connect
         self.post_connect = post_connect
+        # linger_gate: an Event; a requester that is turned away then neither reads on nor hangs
+        # up -- it just sits there (a program showing an error dialog) until the gate opens.  The
+        # table manager must close its side and go on accepting regardless.
+        self.linger_gate = linger_gate
         # observations
         self.sent = []                  # raw lines sent
         self.received = []              # raw lines received
@@ -208,6 +213,10 @@ class ScriptedPlayer:
         if tok[0] == 'ERROR':
             self.verdict = 'rejected'
             self.error_line = line
+            if self.linger_gate is not None:
+                self._verdict()
+                self.linger_gate.wait()
+                raise _Stop()
             # a rejected client must see nothing but end-of-stream afterwards
             extra = self.recv()
             while extra is not None:
